@@ -86,6 +86,10 @@ def _occurs(sep, x, guards, depth=0):
                          and isinstance(t.args[0], ast.Constant) and t.args[0].value == s1 for t, p in guards)
             if starts and _occurs(sep, y, guards, depth + 1):
                 return True
+    # x = Y.strip(): whitespace is removed at the ends only; a sep without leading / trailing whitespace that occurs in Y occurs in x
+    if isinstance(x, ast.Call) and isinstance(x.func, ast.Attribute) and x.func.attr in ("strip", "lstrip", "rstrip") and not x.args and sep == sep.strip():
+        if _occurs(sep, x.func.value, guards, depth + 1):
+            return True
     # x = Y[1:] with Y.startswith(c), c one character that sep does not begin with: same argument
     if isinstance(x, ast.Subscript) and isinstance(x.slice, ast.Slice) and x.slice.upper is None and x.slice.step is None \
             and isinstance(x.slice.lower, ast.Constant) and x.slice.lower.value == 1:
@@ -96,6 +100,21 @@ def _occurs(sep, x, guards, depth=0):
                 if _occurs(sep, y, guards, depth + 1):
                     return True
     return False
+
+
+def _resolve_local(e, cfg, nid, depth=0):
+    """a local bound once -> the expression it was bound to (for the occurrence proofs)"""
+    if isinstance(e, ast.Name) and depth < 3:
+        rd = ReachingDefs(cfg) if not hasattr(cfg, "_rd_cache") else cfg._rd_cache
+        cfg._rd_cache = rd
+        ds = rd.at(nid, e.id)
+        if len(ds) == 1 and ds[0].kind == "assign" and not ds[0].index and ds[0].value is not None:
+            return _resolve_local(ds[0].value, cfg, ds[0].node, depth + 1)
+    if isinstance(e, ast.Subscript) and isinstance(e.value, ast.Name) and depth < 3:
+        inner = _resolve_local(e.value, cfg, nid, depth + 1)
+        if inner is not e.value:
+            return ast.Subscript(value=inner, slice=e.slice, ctx=ast.Load())
+    return e
 
 
 def _split_index_safe(sub, guards):
@@ -140,12 +159,20 @@ def r10a(repo, chk):
                 if f == "setattr":
                     from .c15 import _is_field_set, Scanner
                     sc_ = Scanner(repo)
-                    g = [(norm(t), p) for t, p in cfg.guards(n.id) if isinstance(t, ast.expr)]
-                    ok = False
-                    for t, p in cfg.guards(n.id):
-                        if p and isinstance(t, ast.Compare) and len(t.ops) == 1 and isinstance(t.ops[0], ast.In) and norm(t.left) == norm(c.args[1]) \
-                                and _is_field_set(repo, sc_, t.comparators[0], set(fields)):
-                            ok = True
+                    # where the (name, value) pair is decided: the call itself, or the statements that fill the dictionary it is applied from
+                    eff = [vc for vn, vc in sc_.sites if getattr(vc, "virtual_for", None) is not None and norm(vc.virtual_for) == norm(c)]
+                    places = []
+                    for vc in eff:
+                        ids_ = [x.id for x in cfg.nodes_of(vc.parent)]
+                        if ids_:
+                            places.append((ids_[0], vc))
+                    if not places:
+                        places = [(n.id, c)]
+                    g, ok = [], True
+                    for at, site in places:
+                        g += [(norm(t), p) for t, p in cfg.guards(at) if isinstance(t, ast.expr)]
+                        ok = ok and any(p and isinstance(t, ast.Compare) and len(t.ops) == 1 and isinstance(t.ops[0], ast.In) and norm(t.left) == norm(site.args[1])
+                                        and _is_field_set(repo, sc_, t.comparators[0], set(fields)) for t, p in cfg.guards(at))
                     hasattr_guard = any(p and t.startswith("hasattr(") for t, p in g)
                     if not ok and not hasattr_guard and not any(" in " in t for t, p in g):
                         unknown.append(f"setattr({norm(c.args[0])}, {norm(c.args[1])}, …) with guards {g}")
@@ -158,6 +185,9 @@ def r10a(repo, chk):
                     chk.ok("R10.a", key, {"callee": f})
                 elif isinstance(c.func, ast.Attribute) and c.func.attr == "compile" and isinstance(c.func.value, ast.Call) and norm(c.func.value.func) == "Compiler":
                     chk.ok("R10.a", key, {"callee": "Compiler.compile (containment checked separately)"})
+                elif isinstance(c.func, ast.Attribute) and c.func.attr in ("index", "rindex") and c.args and isinstance(c.args[0], ast.Constant) and isinstance(c.args[0].value, str) \
+                        and _occurs(c.args[0].value, _resolve_local(c.func.value, cfg, n.id), [(t_, p_) for t_, p_ in cfg.guards(n.id) if isinstance(t_, ast.expr)]):
+                    chk.ok("R10.a", key, {"callee": f, "why": "the tests on the path show that the text occurs"})
                 elif f in PARTIAL_FUNCS or (isinstance(c.func, ast.Attribute) and c.func.attr in PARTIAL_METHODS):
                     chk.bad("R10.a", key, f"call of {f} outside any catch-all try can raise for some inputs (it is a partial function): the exception would leave compile_code", None, where)
                 else:
